@@ -974,3 +974,85 @@ class kt_issymmetric(Contract):
         rt = T.tz(ans) if not isinstance(ans, bool) else z3.BoolVal(ans)
         yield "symmetric-answer-only-if-all-factors-equal", z3.Implies(rt, allsame)
         yield "symmetric-answer-if-all-factors-equal", z3.Implies(allsame, rt)
+
+
+# ======================================================================= get_mttkrp_factors (C19 / C02)
+
+def _abs_kt_copy(it, pos, kw, self_val):
+    """ktensor.copy(): a new object with the same weights and factor entries (verified under its own contract), here with a
+    mutable factor list because the caller goes on to redistribute the weights in place"""
+    g = self_val.ghost
+    w = N.snap(self_val.fields["weights"])
+    src = self_val.fields["factor_matrices"]
+    ent = (lambda m, i, j: src.item(m).fn(i, j))
+    heap = HeapList(g["N"], rows=lambda m: T.tz(g["shape"].fn(m)), cols=lambda m: g["R"], entry=lambda m, i, j: ent(T.tz(m), T.tz(i), T.tz(j)))
+    new = Rec("ktensor", dict(weights=Arr(w.shape, w.fn, "real"), factor_matrices=heap))
+    new.ghost = dict(g)
+    return new
+
+
+def _abs_kt_redistribute(it, pos, kw, self_val):
+    """ktensor.redistribute(mode): column r of factor `mode` is multiplied by weight r, every weight becomes 1 (verified under
+    its own contract); an out-of-range mode raises IndexError"""
+    mode = pos[0] if pos else kw["mode"]
+    g = self_val.ghost
+    if isinstance(mode, int) and mode >= 0:
+        it.ctx.raise_unless(T.lt(mode, g["N"]), "IndexError", "list index out of range")
+    heap = self_val.fields["factor_matrices"]
+    w = N.snap(self_val.fields["weights"])
+    old = heap.entry
+    heap.entry = lambda m, i, j: T.Ite(T.eq(m, mode), T.mul(old(m, i, j), w.fn(j)), old(m, i, j))
+    self_val.fields["weights"] = Arr(w.shape, lambda j: 1.0, "real")
+    return self_val
+
+
+@register
+class get_mttkrp_factors(Contract):
+    qual = "pyttb.pyttb_utils.get_mttkrp_factors"
+    props = ("C19", "C02")
+    doc = ("The operand check shared by every mttkrp: a list of matrices is returned as it is if it has exactly `ndims` "
+           "members and rejected otherwise; a Kruskal operand K is replaced by the list of its factor matrices with the weights "
+           "multiplied into factor 1 (if n == 0) or factor 0 (otherwise) -- never into the factor that is skipped -- and is "
+           "rejected unless K has exactly `ndims` modes; K itself is not changed.  (ndims >= 2: MTTKRP is refused for 1-way tensors.)")
+
+    def abstract_calls(self, S, a):
+        return {K_ + "copy": _abs_kt_copy, K_ + "redistribute": _abs_kt_redistribute}
+
+    def case_names(self):
+        return ["list", "ktensor"]
+
+    def setup(self, S, case):
+        nd = S.int("ndims", 2)       # every mttkrp refuses tensors with fewer than two modes before / while calling this
+        n = S.int("n", 0)
+        S.assume(n < nd)
+        if case == "list":
+            lst, g = sym_factor_list(S)
+            return dict(U=lst, n=n, ndims=nd, __g__=g)
+        K = sym_ktensor(S, "K")
+        return dict(U=K, n=n, ndims=nd, __K__=K)
+
+    def raises_when(self, S, a):
+        if "__K__" in a:
+            g = a["__K__"].ghost
+            yield "operand-has-another-number-of-modes-than-the-tensor", g["N"] != a["ndims"]
+        else:
+            yield "list-has-another-length-than-the-tensor-has-modes", a["__g__"]["N"] != a["ndims"]
+
+    def ensures(self, S, a, ret):
+        if "__K__" not in a:
+            yield "the-list-itself", ret is a["U"]
+            return
+        K = a["__K__"]
+        g = K.ghost
+        yield "a-list-of-matrices", isinstance(ret, SymList)
+        if not isinstance(ret, SymList):
+            return
+        yield "one-factor-per-mode", S.eq(ret.length, g["N"])
+        m, i, r = z3.Int("mf!m"), z3.Int("mf!i"), z3.Int("mf!r")
+        target = z3.If(T.tz(a["n"]) == 0, z3.IntVal(1), z3.IntVal(0))
+        item = ret.item(m)
+        wv = lambda r_: T.tz(K.fields["weights"].fn(r_))
+        yield "weights-absorbed-into-a-factor-that-is-not-skipped", T.ForAll(
+            [m, i, r], z3.Implies(z3.And(0 <= m, m < g["N"], 0 <= i, i < T.tz(g["shape"].fn(m)), 0 <= r, r < g["R"]),
+                                  T.tz(T.as_real(item.fn(i, r))) == z3.If(m == target, g["fm"](m, i, r) * wv(r), g["fm"](m, i, r))))
+        yield "absorbing-factor-differs-from-the-skipped-one", target != T.tz(a["n"])
